@@ -64,6 +64,8 @@ def build(p: dict[str, Any]) -> dict[str, Any]:
                output=dict(period=p["period"] * dt, numrec=p.get("numrec", 0), layout=p.get("layout", "sparse"), instance=out_i, particle=out_p))
     if p.get("filename"):
         run["output"]["filename"] = p["filename"]
+    if p.get("ncargs"):
+        run["output"]["ncargs"] = p["ncargs"]
     return dict(world=w, run=run)
 
 
